@@ -196,17 +196,63 @@ theorem grows_parseFile (d : Disk) (w : World) (v : VMId) (f : File) :
     Grows v (declsOf d f) w (parseFile d w v f).1 :=
   (Grows.of_same (same_bindParser v v w)).trans (grows_parseAndRun d _ v f)
 
-/-- what an autoload of `n` can define -/
-def autoOffers (d : Disk) (n : Name) : List (Kind × Name) :=
-  match d.find n with
-  | some f => declsOf d f
-  | none => []
+theorem same_setBase_shared (v : VMId) (w : World) (b : Base) (hc : b.classes = w.base.classes)
+    (hi : b.ifaces = w.base.ifaces) (hf : b.funcs = w.base.funcs) : SameTbl v w (w.setBase b) := by
+  intro k
+  cases v <;> cases k <;> simp [tblOf, World.setBase, hc, hi, hf]
+
+theorem grows_includeFile (d : Disk) (w : World) (v : VMId) (f : File) :
+    Grows v (declsOf d f) w (includeFile d w v f).1 := by
+  unfold includeFile
+  split
+  · exact Grows.refl v _ w
+  · split
+    · exact Grows.refl v _ w
+    · exact grows_loadAndRun d w v f
+
+/-- what the autoload callbacks can define for `n` -/
+def cbOffers (d : Disk) (n : Name) : List (Kind × Name) :=
+  d.cbs.flatMap (fun a => match a n with | some f => declsOf d f | none => [])
+
+theorem cbFile_offers (d : Disk) (cb : Nat) (n : Name) (f : File) (h : cbFile d cb n = some f) :
+    ∀ x, x ∈ declsOf d f → x ∈ cbOffers d n := by
+  intro x hx
+  unfold cbFile at h
+  split at h
+  · rename_i a ha
+    have hm : a ∈ d.cbs := List.mem_of_getElem? ha
+    simp only [cbOffers, List.mem_flatMap]
+    exact ⟨a, hm, by rw [h]; exact hx⟩
+  · cases h
+
+theorem grows_runCallback (d : Disk) (w : World) (v : VMId) (cb : Nat) (n : Name) :
+    Grows v (cbOffers d n) w (runCallback d w v cb n).1 := by
+  unfold runCallback
+  split
+  · rename_i f hf
+    exact (grows_includeFile d w v f).mono (cbFile_offers d cb n f hf)
+  · exact Grows.refl v _ w
+
+theorem grows_callAutoLoad (d : Disk) (v : VMId) (n : Name) (cbs : List Nat) :
+    ∀ w, Grows v (cbOffers d n) w (callAutoLoad d v n w cbs).1 := by
+  induction cbs with
+  | nil => intro w; exact Grows.refl v _ w
+  | cons cb cbs ih =>
+    intro w
+    unfold callAutoLoad
+    have h1 := grows_runCallback d w v cb n
+    dsimp only
+    split
+    · exact h1
+    · split
+      · exact h1
+      · exact h1.trans (ih _)
 
 theorem grows_loadClass (d : Disk) (w : World) (v : VMId) (n : Name) :
     Grows v (autoOffers d n) w (loadClass d w v n).1 := by
   unfold loadClass autoOffers
   cases hf : d.find n with
-  | none => exact Grows.refl v _ w
+  | none => exact grows_callAutoLoad d v n _ w
   | some f =>
     dsimp only
     split
@@ -258,10 +304,11 @@ theorem tempGetOrLoadInterface_noleak (d : Disk) (w : World) (i : Nat) (n : Name
     split
     · rfl
     · rename_i hbase
-      have hf : d.find n = none := by
+      have hf : canAutoload d w n = false := by
         simp [leaky, hloc, hbase] at hl
         exact hl
-      rw [loadClass_find_none d w .base n hf]
+      obtain ⟨h1, h2⟩ := canAutoload_false hf
+      rw [loadClass_noop d w .base n h1 h2]
       rfl
 
 theorem tempLoadPkg_noleak (d : Disk) (w : World) (i : Nat) (n : Name)
@@ -275,11 +322,90 @@ theorem tempLoadPkg_noleak (d : Disk) (w : World) (i : Nat) (n : Name)
     split
     · rfl
     · rename_i hbase
-      have hf : d.find n = none := by
+      have hf : canAutoload d w n = false := by
         simp [leaky, hloc, hbase] at hl
         exact hl
-      rw [loadClass_find_none d w .base n hf]
+      obtain ⟨h1, h2⟩ := canAutoload_false hf
+      rw [loadClass_noop d w .base n h1 h2]
       rfl
+
+/-! #### script routes -/
+
+theorem grows_scriptEval (d : Disk) (w : World) (v : VMId) (u : File) (id : Nat) :
+    Grows v (declsOf d u) w (scriptEval d w v u id) := by
+  unfold scriptEval
+  have hb : Grows v (declsOf d u) w (bindParser w v) := Grows.of_same (same_bindParser v v w)
+  dsimp only
+  cases v with
+  | temp i => exact hb.trans (Grows.of_same (same_throwControl _ _))
+  | base =>
+    dsimp only
+    split
+    · exact hb
+    · rename_i ds hc
+      rw [declsOf_eq d u ds hc]
+      have h1 := grows_parsePhase .base (.stub id) ds (bindParser w .base)
+      split
+      · exact h1.trans (grows_runPhase .base (.stub id) ds _)
+      · exact h1.trans (Grows.of_same (same_throwControl _ _))
+
+theorem grows_scriptInclude (d : Disk) (w : World) (v : VMId) (f : File) (req : Bool) :
+    Grows v (declsOf d f) w (scriptInclude d w v f req) := by
+  unfold scriptInclude
+  have h : Grows v (declsOf d f) w (includeFile d (bindParser w v) v f).1 :=
+    (Grows.of_same (same_bindParser v v w)).trans (grows_includeFile d _ v f)
+  dsimp only
+  split
+  · exact h
+  · exact h.trans (Grows.of_same (same_throwControl _ _))
+  · split
+    · exact h.trans (Grows.of_same (same_throwControl _ _))
+    · exact h
+
+theorem grows_scriptRunFn (w : World) (v : VMId) (n : Name) (id : Nat) :
+    Grows v [(Kind.fn, n)] w (scriptRunFn w v n id) := by
+  unfold scriptRunFn
+  have h : Grows v [(Kind.fn, n)] w (addDef (bindParser w v) v .fn n (.stub id)).1 :=
+    (Grows.of_same (same_bindParser v v w)).trans (grows_addDef _ v .fn n _)
+  dsimp only
+  split
+  · exact h
+  · exact h.trans (Grows.of_same (same_throwControl _ _))
+
+theorem grows_getOrLoadClassOn (d : Disk) (w : World) (v : VMId) (n : Name) :
+    Grows v (autoOffers d n) w (getOrLoadClassOn d w v n).1 := by
+  cases v with
+  | base => exact grows_baseGetOrLoadClass d w n
+  | temp i => exact grows_tempGetOrLoadClass d w i n
+
+theorem grows_scriptUse (d : Disk) (w : World) (v : VMId) (n : Name) (pt : Bool) :
+    Grows v (autoOffers d n) w (scriptUse d w v n pt).1 := by
+  unfold scriptUse
+  have h : Grows v (autoOffers d n) w (getOrLoadClassOn d (bindParser w v) v n).1 :=
+    (Grows.of_same (same_bindParser v v w)).trans (grows_getOrLoadClassOn d _ v n)
+  dsimp only
+  split
+  · exact h
+  · split
+    · exact h
+    · exact h.trans (Grows.of_same (same_throwControl _ _))
+
+theorem same_scriptAutoReg (v v' : VMId) (w : World) (cb : Nat) : SameTbl v w (scriptAutoReg w v' cb) := by
+  intro k
+  have h1 := same_bindParser v v' w k
+  have h2 := same_setBase_shared v (bindParser w v')
+    { (bindParser w v').base with autoload := (bindParser w v').base.autoload ++ [cb] } rfl rfl rfl k
+  exact h2.trans h1
+
+theorem same_scriptDefine (v v' : VMId) (w : World) (c : Name) : SameTbl v w (scriptDefine w v' c) := by
+  intro k
+  have h1 := same_bindParser v v' w k
+  unfold scriptDefine
+  dsimp only
+  split
+  · exact (same_throwControl v _ k).trans h1
+  · exact (same_setBase_shared v (bindParser w v')
+      { (bindParser w v').base with consts := c :: (bindParser w v').base.consts } rfl rfl rfl k).trans h1
 
 /-- a non-leaky, non-discard step lets the maps of the VM it is invoked on grow at most
 by what the operation offers … -/
@@ -310,6 +436,14 @@ theorem grows_step (d : Disk) (w : World) (op : Op) (hl : leaky d w op = false) 
     exfalso
     obtain ⟨s, hs⟩ := h
     cases k <;> simp [tblOf, step, World.setTemp, Op.via] at hs
+  | evalCode v u id => exact grows_scriptEval d w v u id
+  | incl v f req => exact grows_scriptInclude d w v f req
+  | runFn v n id => exact grows_scriptRunFn w v n id
+  | autoReg v cb => exact Grows.of_same (same_scriptAutoReg v v w cb)
+  | useClass v n pt => exact grows_scriptUse d w v n pt
+  | define v c => exact Grows.of_same (same_scriptDefine v v w c)
+  | alias v a b => exact Grows.of_same (same_bindParser v v w)
+  | inert v => exact Grows.of_same (same_bindParser v v w)
 
 /-- … and leaves the maps of every other VM alone. -/
 theorem same_step (d : Disk) (w : World) (op : Op) (hl : leaky d w op = false) (v : VMId)
